@@ -1,0 +1,80 @@
+//go:build verif
+
+// Contracts for the filter evaluator, checked by /verif/govc (property C07).
+// This file holds comments only; it is compiled only with the "verif" tag.
+
+package filter
+
+//@ func (*BasicExpression).Evaluate(e, attrs) (result, err)
+//@   property C07
+//@   uses filtersem
+//@   requires wf_basic(e)
+//@   ensures total: err == nil
+//@   ensures sem: result == sem_basic(e, attrs)
+//@   modifies nothing
+
+//@ func (*Condition).Evaluate(e, attrs) (result, err)
+//@   property C07
+//@   uses filtersem
+//@   requires wf_cond(e)
+//@   ensures total: err == nil
+//@   ensures sem: result == sem_cond(e, attrs)
+//@   modifies nothing
+
+//@ func (*Term).Evaluate(e, attrs) (result, err)
+//@   property C07
+//@   uses filtersem
+//@   requires wf_term(e)
+//@   ensures total: err == nil
+//@   ensures sem: result == sem_term(e, attrs)
+//@   modifies nothing
+
+//@ func (*HasAttribute).Evaluate(e, attrs) (result, err)
+//@   property C07
+//@   uses filtersem
+//@   requires e != nil
+//@   ensures total: err == nil
+//@   ensures sem: result == sem_has(e, attrs)
+//@   modifies nothing
+
+//@ func (*HasAttributeValue).Evaluate(e, attrs) (result, err)
+//@   property C07
+//@   uses filtersem
+//@   requires e != nil && (e.Op == "=" || e.Op == "!=")
+//@   ensures total: err == nil
+//@   ensures sem: result == sem_value(e, attrs)
+//@   modifies nothing
+
+//@ func (*HasAttributePredicate).Evaluate(e, attrs) (result, err)
+//@   property C07
+//@   uses filtersem
+//@   requires e != nil && e.Predicate == "hasPrefix"
+//@   ensures total: err == nil
+//@   ensures sem: result == sem_pred(e, attrs)
+//@   modifies nothing
+
+//@ func andTerms(attrs, terms) (result, err)
+//@   property C07
+//@   uses filtersem
+//@   requires len(terms) > 0
+//@   requires forall i int :: {terms[i]} 0 <= i && i < len(terms) ==> terms[i] != nil && wf_term(terms[i])
+//@   ensures total: err == nil
+//@   ensures sem: result <==> (forall i int :: 0 <= i && i < len(terms) ==> sem_term(terms[i], attrs))
+//@   modifies nothing
+//@   loop 1
+//@     invariant err == nil
+//@     invariant forall i int :: 0 <= i && i <= idx ==> sem_term(terms[i], attrs)
+//@     invariant idx >= 0 ==> result
+
+//@ func orTerms(attrs, terms) (result, err)
+//@   property C07
+//@   uses filtersem
+//@   requires len(terms) > 0
+//@   requires forall i int :: {terms[i]} 0 <= i && i < len(terms) ==> terms[i] != nil && wf_term(terms[i])
+//@   ensures total: err == nil
+//@   ensures sem: result <==> (exists j int :: 0 <= j && j < len(terms) && sem_term(terms[j], attrs))
+//@   modifies nothing
+//@   loop 1
+//@     invariant err == nil
+//@     invariant forall i int :: 0 <= i && i <= idx ==> !sem_term(terms[i], attrs)
+//@     invariant idx >= 0 ==> !result
